@@ -103,11 +103,39 @@ fn judge_impl(case: &Case) -> Outcome {
             ));
         }
     }
+    // the tables hold for Rule::matches whatever the rule went through: optimised rules have to
+    // agree with the rule as loaded, up to the known findings K1 / K2
+    for (t, r, which) in [(&case.rules[0], &rules[0], ""), (&case.rules[1], &rules[1], "negated ")] {
+        let rr = crate::reference::load_rule_text(t, false).ok();
+        if let Err(o) = crate::checks::c02::optimised_agreement(t, r, rr.as_ref(), which, &case.docs) {
+            return o;
+        }
+        evals += 2 * case.docs.len() as u64;
+    }
     Outcome::Pass { nontrivial: None, evaluations: evals, labels: vec![] }
 }
 
 pub fn judge(case: &Case) -> Outcome {
-    judge_impl(case)
+    match case.kind.as_str() {
+        // connectives over operands that are not independent (several predicates on one field,
+        // with and without casts): judged against the reference interpreter, and the optimised
+        // rule against the rule as loaded
+        "c06.reference" => match crate::checks::c02::eval_case(case) {
+            Ok(r) => {
+                let t = r.iter().any(|x| x.0 == Tri::T);
+                let n = r.iter().any(|x| x.0 != Tri::T);
+                Outcome::Pass {
+                    nontrivial: if t && n { Some(hash_str(&case.rules[0])) } else { None },
+                    evaluations: 6 * case.docs.len() as u64,
+                    labels: vec!["same_field_connective_rule"],
+                }
+            }
+            Err(o) => o,
+        },
+        // all() / of() over key lists of 62-130 members (beyond the enumerated arities)
+        "c08.members" => crate::checks::c08::judge(case),
+        _ => judge_impl(case),
+    }
 }
 
 fn all_vectors(k: usize, alphabet: &[V]) -> Vec<Vec<V>> {
@@ -390,7 +418,9 @@ pub fn run(tier: &str, seed: u64) -> i32 {
         over sequence and mapping identifiers, plain / all(k) / of(k,n) key lists} x arity 1..4 (thorough: 5 and \
         nested forms) x every operand vector in {T,F,M}^k (key lists: {T,F}^k and all-missing) x thresholds 0..k+1. \
         Operands are realised by documents (field = v true, = w false, absent missing). and/or/not are compared as \
-        full three-valued results recovered by probing C and not (C); all/of on truth. Non-trivial: operand vector \
+        full three-valued results recovered by probing C and not (C); all/of on truth. Beyond the enumerated arities: all(k)/of(k,n) over key lists of 62-130 members (quantified form vs \
+        its members), and connectives over 3-6 predicates that share one field (mixed casts, negations, \
+        quantifiers x every value kind) judged by the reference interpreter. Every document is also matched against the rule optimised with the default switches and with one further switch set; a verdict that differs from the rule as loaded must be explained by the known findings K1 / K2 (relaxed reference for that switch set). Non-trivial: operand vector \
         holds at least two different values; distinct by (form, condition, vector)."
         .into();
     report.assumptions = vec!["the tables are those stated in the property; of(0) is expected true exactly when no operand is true and at least one is false".into()];
@@ -430,6 +460,45 @@ pub fn run(tier: &str, seed: u64) -> i32 {
     });
     for s in chunks {
         report.merge(s);
+    }
+    // wide arities of the quantifier forms
+    let big = crate::checks::c08::big_list_cases(tier);
+    let chunks: Vec<Report> = par_run(|w, n| {
+        let mut sub = report.sub();
+        for (i, c) in big.iter().enumerate() {
+            if i % n != w {
+                continue;
+            }
+            let out = judge(c);
+            sub.label("quantifier_over_wide_key_list");
+            sub.record(c, out);
+        }
+        sub
+    });
+    for s in chunks {
+        report.merge(s);
+    }
+    // operands that share one field
+    {
+        use proptest::prelude::*;
+        crate::gen::drive(
+            &mut report,
+            50,
+            if tier == "thorough" { 100_000 } else { 3_000 },
+            crate::gen::rule_same_field_focus,
+            |rule: &crate::spec::RuleSpec| {
+                if !rule.well_formed() {
+                    return vec![];
+                }
+                let mut c = Case::new("c06.reference");
+                c.rules = vec![rule.text(), rule.negated_text()];
+                c.docs = crate::gen::same_field_docs("f1");
+                vec![c]
+            },
+            judge,
+            |_, _| {},
+        );
+        let _ = any::<bool>();
     }
     report.finish()
 }
